@@ -25,10 +25,7 @@ static void check_case(vg::Src& s, vh::Ctx& c)
         std::string tag = "step#" + std::to_string(round + 1) + ": ";
         if (round > 0)
         {
-            std::string what = next_round(sc, r, s, c);
-            c.desc += " |" + what;
-            if (c.verbose)
-                std::cout << "STEP" << what << std::endl;
+            next_round(sc, r, s, c);  // (announces itself and extends the description)
         }
         size_t limited = 0;
         const bool linear = sc.n == 1.0;
